@@ -6,7 +6,7 @@ from hypothesis import strategies as st
 
 # ---------------------------------------------------------------- binary / grey images
 
-IMAGE_KINDS = ("random", "sparse", "full", "empty", "checker", "comb", "spiral",
+IMAGE_KINDS = ("random", "sparse", "full", "empty", "checker", "comb", "deepcomb", "spiral",
                "stairs", "border", "stripes", "blobs")
 
 
@@ -74,6 +74,31 @@ def build_image(kind, ns, nf, seed, fill=0.5):
             c[::2] = 1
         else:
             c[:, ::2] = 1
+        return c
+    if kind == "deepcomb":
+        # one blob whose provisional labels form a long chain of unions: vertical bars born on the same row,
+        # bridged pair by pair on successively later rows (from one side to the other), then tied to a blob that was
+        # born earlier; nothing below the last tie.  Four variants (mirror, bridge order) from the seed.
+        c = np.zeros((ns, nf), np.uint8)
+        K = min((nf - 3) // 2, (ns - 5) // 2)
+        if K < 3:
+            return build_image("comb", ns, nf, seed, fill)
+        cols = [2 * b for b in range(K)]                 # bars
+        early = 2 * K + 1                                # the column of the blob born on row 0
+        last = 3 + 2 * (K - 1) + 1
+        c[0:last + 1, early] = 1
+        for x in cols:
+            c[1:last + 1, x] = 1
+        order = range(K - 1) if (seed >> 1) & 1 else range(K - 2, -1, -1)
+        for step, b in enumerate(order):                 # bridge bars b and b+1 on row 3 + 2*step
+            c[3 + 2 * step, cols[b] + 1] = 1
+        tie = cols[-1] if (seed >> 2) & 1 else cols[0]
+        lo, hi = sorted([tie, early])
+        c[last, lo:hi + 1] = 1 if tie == cols[-1] else c[last, lo:hi + 1]
+        if tie != cols[-1]:
+            c[last - 1, cols[-1] + 1:early] = 1           # always tie through the nearest bar; which end is deepest
+        if seed & 1:                                      # depends on the bridge order
+            c = c[:, ::-1].copy()
         return c
     if kind == "blobs":
         c = np.zeros((ns, nf), np.uint8)
